@@ -194,18 +194,46 @@ func (s *TaintState) prefixTaint(k string) Taint {
 	return t
 }
 
+// lengthCarrying: a value of type t has a length (or holds, directly, something that has one).
+// Pointers are not followed: what they point to is a location of its own.
+func lengthCarrying(t types.Type, d int) bool {
+	if d > 4 {
+		return true
+	}
+	switch u := t.Underlying().(type) {
+	case *types.Slice, *types.Map, *types.Chan, *types.Interface:
+		return true
+	case *types.Basic:
+		return u.Info()&types.IsString != 0
+	case *types.Array:
+		return lengthCarrying(u.Elem(), d+1)
+	case *types.Struct:
+		for i := 0; i < u.NumFields(); i++ {
+			if lengthCarrying(u.Field(i).Type(), d+1) {
+				return true
+			}
+		}
+	}
+	return false
+}
+
 // loadTaint: taint of the value read through addr.
 func (s *TaintState) loadTaint(addr ssa.Value) Taint {
 	var t Taint
 	switch x := addr.(type) {
 	case *ssa.IndexAddr:
-		// element of a container: content taint of the container value
+		// element of a container: content taint of the container value; an element that itself has
+		// a length (slice, string, map, ... or a struct holding one) has a peer-chosen length too
+		el := TC
+		if pt, ok := addr.Type().Underlying().(*types.Pointer); ok && lengthCarrying(pt.Elem(), 0) {
+			el |= TL
+		}
 		if s.Of(x.X)&TC != 0 {
-			t |= TC | TL // an element that is itself a slice has peer-chosen length too
+			t |= el
 		}
 		if k := s.locKey(x.X); k != "" {
 			if s.loc[k]&TC != 0 {
-				t |= TC | TL
+				t |= el
 			}
 		}
 		// pointer to array (e.g. &buf[i] of *[N]T)
@@ -419,8 +447,14 @@ func (s *TaintState) flowFunc(f *ssa.Function, add func(*ssa.Function), srcSeen 
 			case *ssa.Store:
 				t := s.Of(x.Val)
 				if t != 0 {
-					if k := s.locKey(x.Addr); k != "" {
-						s.setLoc(k, t)
+					lt := t
+					if _, isElem := x.Addr.(*ssa.IndexAddr); isElem && !lengthCarrying(x.Val.Type(), 0) {
+						// storing an element that has no length of its own does not make any
+						// length of the container peer-chosen
+						lt &^= TL
+					}
+					if k := s.locKey(x.Addr); k != "" && lt != 0 {
+						s.setLoc(k, lt)
 					}
 					// element store: the container's content becomes tainted
 					if ia, ok := x.Addr.(*ssa.IndexAddr); ok {
